@@ -24,7 +24,13 @@ RULE = ("kinds: kernel (dbal_fast_gauss_scoring_vectorized on NaN/0-padded dense
         "(max_chunk 50 -> two sub-groups; model correspondence included); scorer-overlap (ScreenSubsets whose selection vectors OVERLAP and "
         "interleave: plate k = its own rows plus a common batch block, as score_chunk hands them over; reference = direct estimator on the "
         "selected columns; model correspondence included; invariance under max_chunk / key order / scoring a plate without the others); "
-        "dtype (one plate handed over as float32: the scores of the OTHER, float64, plates must not move).")
+        "dtype (one plate handed over as float32: the scores of the OTHER, float64, plates must not move, and the float32 plate scores "
+        "what its own rounded values give in double precision).  "
+        "Added with repair fx2 (the dense array takes np.result_type of ALL the arrays, not the dtype of the first): pad-dtype "
+        "(pad_ragged_arrays_to_dense_array itself on 0-4 arrays of full-mantissa values handed over as float16 / float32 / float64 in "
+        "every order, pad value 0.0 or NaN: every array is read back from the dense array bit for bit, padding cells hold the pad "
+        "value, the dense dtype is one of the arrays' dtypes and is the same for the reversed list; the dtype is compared with the "
+        "model's pad_dtype, wire op 5).")
 THEOREMS = {
     "C05_vectorised_eq_direct": "kernel on the 0-padded means / NaN-padded variances of any plate list = map of the direct one-plate double loop (all T>0, all plate lists incl. size-0/1 plates and a single plate, all means/variances/matrices/distance_factor, all triple lists, all ln/exp)",
     "C05_kernel_on_padding": "kernel on ANY dense arrays holding the plates (own cells agree, 0/NaN elsewhere, any width >= widest plate) = direct estimator per plate",
@@ -44,7 +50,7 @@ THEOREMS = {
     "C05_checked_ok": "on well-formed input (T>=3, non-empty plate list, square T x T matrix) no ValueError check fires and the heteroscedastic entry point returns the pure value on the unranked draw",
     "C05_model_is_source_score": "the Gallina translation of the WHOLE method GaussianDBALScorer.score regenerated from /repo's current scoring/gaussian_dbal.py on this run (Generated/SrcDbal.v: the empty-dict return, n_subs = np.ceil(len(plates) / self.max_chunk), np.array_split over list(plates.keys()), the loop over the sub-groups with the dict lookups plates[k], the mask loop, the two predict comprehensions, the shape-check loop and its raise, the two padding calls, the kernel call consuming one recorded rng.choice answer, result.update(dict(zip(plate_subgroup, vals))), the final length check and its raise) equals, for EVERY integer max_chunk, every plates dict with distinct keys whose selection vectors have one common length, every matrix and every list of at least ceil(n/max_chunk) recorded answers, the model scorer_checked on the plates' (means, variances) - preceded by ZeroDivisionError for max_chunk = 0 and np.array_split's ValueError for max_chunk < 0 (scorer_py)",
     "C05_model_is_source_score_positive_chunk": "instance: for max_chunk >= 1 the translated score is exactly scorer_checked (the function C05_scorer_checked_ok and C05_alone are about)",
-    "C05_model_is_source_pad_ragged_arrays_to_dense_array": "the translation of the whole function pad_ragged_arrays_to_dense_array (np.max of the shapes, pad_value * np.ones, the enumerate loop of block assignments) equals for ALL inputs and any element type / pad value: ValueError on no arrays, else the model pad_ragged",
+    "C05_model_is_source_pad_ragged_arrays_to_dense_array": "the translation of the whole function pad_ragged_arrays_to_dense_array (np.max of the shapes, pad_value * np.ones(..., dtype=np.result_type(*arrays, pad_value)) - the repaired allocation, matched by its exact text -, the enumerate loop of block assignments) equals for ALL inputs and any element type / pad value: ValueError on no arrays, else the model pad_ragged",
     "C05_model_is_source_pad_means": "the primitive the translated scorer / wrappers use for pad_ragged_arrays_to_dense_array(x, pad_value=0.0) is the translated pad function at pad value 0",
     "C05_model_is_source_pad_vars": "likewise for pad_value=np.nan: the translated pad function at pad value NaN (None) on the variance arrays (every real cell Some)",
     "C05_model_is_source_heteroscedastic": "the translation of the whole function dbal_fast_gaussian_scoring_heteroscedastic (zip loop of shape checks, raise, two padding calls, kernel call with the wrapper's own arguments) equals on the means/variances of ANY plate list the model hetero_checked (ValueError from np.max for the empty list)",
@@ -95,7 +101,9 @@ EXPLANATION = ("Model: Model/Dbal.v (+ Model/Unrank.v for the ranks -> triples s
                "variances[idx] = PyRt.list_get (IndexError); v[:, None] * np.ones((n, e)) = np_col_times_ones (rows x*1 repeated e times; "
                "requires n = len(v), which the function guarantees).  "
                "pad: np.array(a.shape) = shape2z; np.max(l, axis=0) = np_max_axis0 (ValueError on []); pad_value * np.ones((len(l), "
-               "*m), dtype=l[0].dtype) = np_full3 (the constant array); result[i, :a.shape[0], :a.shape[1]] = a = set_block.  "
+               "*m), dtype=np.result_type(*l, pad_value)) = np_full3 (the constant array; the dtype expression is part of the matched text, so an "
+               "allocation with any other dtype - e.g. the pre-repair l[0].dtype - is refused and the link fails closed); "
+               "result[i, :a.shape[0], :a.shape[1]] = a = set_block.  "
                "kernel runs: a.shape != b.shape = shape3_ne (3-d); shape[0] / shape[1] = dim0 / dim1 / dim3_1; predictions.shape = shape3z; "
                "comb(n, 3, exact=True) = comb3 (0 below 3, else n(n-1)(n-2)/6); min = Z.min; rng.choice(n, size=k, replace=False) = "
                "rng_choice (ValueError for k < 0 or k > n, else the next recorded answer, refused unless k distinct values of range(n)); "
@@ -115,6 +123,16 @@ EXPLANATION += ("  CONSTRUCTOR: GaussianDBALScorer.__init__ is re-translated on 
                 "arguments; trusted: the translator only (no primitive): `self.<attr>` is a variable of the translation (attr_vars), the value of the translated __init__ is the tuple of the attributes when it ends; an attribute that is not declared is refused; the statement `super().__init__(**kwargs)` is IGNORED - trusted: the base class Scorer "
                 "defines no __init__ (object.__init__ stores nothing; its TypeError for unexpected keyword arguments is not modelled).")
 
+# ---- the dtype of the dense array (repair fx2; Proofs/C05Dtype.v) ----
+THEOREMS.update({
+    "C05_pad_dtype_holds_every_plate": "the dtype the repaired allocation takes (np.result_type over all the arrays and the pad value = the join of the arrays' floating dtypes, model pad_dtype) holds the dtype of EVERY array of the call: no plate is rounded when it is stored into the dense array, wherever it stands",
+    "C05_pad_dtype_stored_exactly": "the same by position: plate k of any call is stored without rounding",
+    "C05_pad_dtype_is_a_plate_dtype": "the dense dtype is the dtype of one of the arrays: nothing is widened beyond need (an all-float32 call stays float32, as before the repair)",
+    "C05_pad_dtype_order_irrelevant": "permuting the arrays leaves the dense dtype unchanged: which plate stands first does not matter",
+    "C05_pad_dtype_first_plate_refuted": "witness about the code BEFORE the repair (dtype of the first array, pad_dtype_of true): for [float32, float64] the dense array is float32 and plate 1 is stored rounded",
+    "C05_pad_dtype_first_plate_order_refuted": "witness about the code BEFORE the repair: [float32, float64] and [float64, float32] got different dense dtypes",
+})
+
 # ---- composition and domain theorems (gap review g2: G5.3 / G15.1, G5.6) ----
 THEOREMS.update({
     "C05_full_draw_complete": "for T >= 3 every rng.choice answer obeying numpy's contract for rng.choice(C(T,3), size=C(T,3), replace=False) unranks WITHOUT ERROR to a complete enumeration (every triple a > b > c below T exactly once) of valid triples: the property's premise 'all triples are enumerated' follows from 'the budget covers C(T,3)' through C15's bijection",
@@ -133,9 +151,14 @@ EXPLANATION += ("  GAP REVIEW g2.  COMPOSITION (C05_full_draw_complete, C05_sour
                 "DOMAIN (C05_domain_*): see the assumptions - the model is total, numpy is not; on positive variances and non-negative matrices the "
                 "totalisations are provably never reached.  NOT translated, still: the tensor expressions of the kernel; their exercised region now "
                 "includes 50 plates per call and 4960 / 5000 triples (kernel-wide, kernel-many), by the direct-estimator predicate only.  "
-                "KNOWN FINDING (kind dtype): the dense array takes the dtype of the FIRST plate, so a float32 first plate lowers every other "
-                "plate's score to single precision (KNOWN_FINDINGS.json); the case is classified by cause - the mixed call is bit for bit the call "
-                "with every plate rounded to float32 - so any other dependence on a neighbour's dtype is reported as a new violation.  "
+                "REPAIRED (fx2; was a known finding): the dense array took the dtype of the FIRST plate, so a float32 first plate lowered every "
+                "other plate's score to single precision.  The allocation now uses np.result_type over all the arrays and the pad value.  The "
+                "array-element model (one element type, values kept exactly by padding) is thereby true of mixed-dtype calls too; the dtype "
+                "itself is modelled by pad_dtype (end of Model/Dbal.v: floating dtypes by precision, the Python-float pad value does not "
+                "raise a floating dtype), proved to hold every plate's dtype in any order (C05_pad_dtype_*), the pre-repair choice kept only "
+                "as pad_dtype_of true and refuted.  pad_dtype is tied to the code by the correspondence of kind pad-dtype (the real "
+                "function's result dtype on every dtype list) and by the pattern of the pad link; kinds dtype and pad-dtype JUDGE the "
+                "formerly excused behaviour (no signature is folded any more; the old witness is corpus/C05/first-plate-float32.json).  "
                 "Whether the documented estimator is the right formula (gap G5.2) is outside the property as given and not examined.")
 
 TRUSTED = [
@@ -479,6 +502,17 @@ def gen(rng, tier):
         plates = _plates(rng, T, rng.choice([1, 2, 3]), 1, homo=how.startswith("homo"))
         yield dict(kind="malformed", how=how, T=T, plates=plates, D=_matrix(rng, T, False), df=1.0,
                    seed=rng.randrange(1 << 30), max_combos=5000)
+    # repair fx2: the padding function itself on arrays of mixed floating dtypes (last, so that the stream above is unchanged)
+    yield dict(kind="pad-dtype", T=3, arrays=[], dtypes=[], pad="zero")
+    for _ in range(60 * mult):
+        T = rng.choice([1, 2, 3, 4])
+        n = rng.choice([1, 2, 2, 3, 3, 4])
+        codes = [rng.choice([16, 32, 32, 64, 64]) for _ in range(n)]
+        if n >= 2 and rng.random() < 0.5:
+            codes[0] = min(codes)                     # the narrowest dtype first: what the pre-repair code got wrong
+        widths = [rng.randint(1, 3) for _ in range(n)]
+        arrays = [[[rng.uniform(-4.0, 4.0) for _ in range(w)] for _ in range(T)] for w in widths]
+        yield dict(kind="pad-dtype", T=T, arrays=arrays, dtypes=codes, pad=rng.choice(["zero", "nan"]))
 
 
 # --------------------------------------------------------------------------- running a case
@@ -590,35 +624,88 @@ def _run_overlap(desc):
     return dict(wire=wire, impl=[[k, s_] for k, s_ in items], pred=pred, features=feats, cmp=cmp_result(_cmp_items))
 
 
-DTYPE_FINDING = "dtype-of-first-plate"
+_DT_CODES = {16: np.float16, 32: np.float32, 64: np.float64}
 
 
 def _run_dtype(desc, feats, all_triples):
     """G5.4: plate `cast` is handed over as float32, the others as float64; the scores of the float64 plates must be what they
-    are without the cast (and the direct estimator)"""
+    are without the cast (and the direct estimator), and the float32 plate must score what its own (rounded) values give."""
     T, plates, D, df, seed, mc, cast = desc["T"], desc["plates"], desc["D"], desc["df"], desc["seed"], desc["max_combos"], desc["cast"]
     s64, rr = _hetero(plates, D, df, seed, mc)
     pred = _contract(rr.calls, T, mc, 1) or _pred_direct(s64, plates, D, df, all_triples, "heteroscedastic (all plates float64)")
     feats += ["cast-first" if cast == 0 else "cast-other"]
     if pred is None:
         s32, _ = _hetero_dtypes(plates, [np.float32 if k == cast else np.float64 for k in range(len(plates))], D, df, seed, mc)
-        # what the call computes if EVERY plate is rounded to float32: when the dense array silently takes the dtype of the
-        # first plate, the mixed call is bit for bit this one (assignment into a float32 array rounds like astype)
-        s32all, _ = _hetero_dtypes(plates, [np.float32] * len(plates), D, df, seed, mc)
         for k in range(len(plates)):
             if k == cast or _same(s32[k], s64[k]):
                 continue
             ref = direct_loop(plates[k]["mu"], plates[k]["var"], D, df, all_triples)
-            fine = s32 == s32all
-            if cast == 0 and fine:
-                pred = ("%s: plate %d (float64, unchanged) scores %r when plate 0 is handed over as float32 but %r when plate 0 is "
-                        "float64 (direct estimator on plate %d alone: %r): its score depends on another plate's dtype / on the plate order"
-                        % (DTYPE_FINDING, k, s32[k], s64[k], k, ref))
-            else:
-                pred = "handing plate %d over as float32 changes the score of the float64 plate %d: %r -> %r (direct estimator %r)" % (
-                    cast, k, s64[k], s32[k], ref)
+            pred = ("plate %d (float64, unchanged) scores %r when plate %d is handed over as float32 but %r when it is float64 (direct "
+                    "estimator on plate %d alone: %r): its score depends on another plate's dtype / on the plate order"
+                    % (k, s32[k], cast, s64[k], k, ref))
             break
+    if pred is None and len(plates) >= 2:
+        # the float32 plate stands among float64 plates: it is scored on the values it was handed over with, in double precision
+        r32 = {key: np.array(plates[cast][key], dtype=float).astype(np.float32).astype(float).tolist() for key in ("mu", "var")}
+        ref = direct_loop(r32["mu"], r32["var"], D, df, all_triples)
+        if isinstance(s32[cast], str) or not _same(s32[cast], ref):
+            pred = ("plate %d (handed over as float32 among float64 plates) scores %r but the direct estimator on its own float32 values "
+                    "gives %r" % (cast, s32[cast], ref))
     return dict(wire=None, impl=None, pred=pred, features=feats)
+
+
+def _bits(a):
+    """the values of a float array as exact Python floats (every float16 / float32 is a float64)"""
+    return np.asarray(a).astype(np.float64)
+
+
+def _run_pad_dtype(desc):
+    """pad_ragged_arrays_to_dense_array on arrays of mixed floating dtypes: nothing is rounded, the dense dtype is one of the
+    arrays' dtypes and does not depend on the order; the dtype is compared with the model's pad_dtype (wire op 5)"""
+    from batchie.scoring import gaussian_dbal as G
+
+    codes, pad = desc["dtypes"], (float("nan") if desc["pad"] == "nan" else 0.0)
+    arrays = [np.array(a, dtype=float).reshape(desc["T"], -1).astype(_DT_CODES[c]) for a, c in zip(desc["arrays"], codes)]
+    feats = ["pad-dtype", "arrays=%d" % len(arrays), "pad=" + desc["pad"], "dtypes=" + "/".join(sorted({str(c) for c in codes}))]
+    if not arrays:
+        feats.append("trivial")
+    if len(set(codes)) > 1:
+        feats.append("mixed-dtypes")
+        feats.append("first-is-widest" if codes[0] == max(codes) else "first-is-not-widest")
+    out = impl_call(G.pad_ragged_arrays_to_dense_array, arrays, pad_value=pad)
+    pred = None
+    impl = out
+    if isinstance(out, ImplError):
+        if arrays:
+            pred = "pad_ragged_arrays_to_dense_array raised %r on %d arrays" % (out, len(arrays))
+        elif out.cls != "ValueError":
+            pred = "pad_ragged_arrays_to_dense_array([]) raised %r instead of ValueError" % (out,)
+    else:
+        impl = out.dtype.itemsize * 8 if out.dtype.kind == "f" else str(out.dtype)
+        H, W = max(a.shape[0] for a in arrays), max(a.shape[1] for a in arrays)
+        if out.shape != (len(arrays), H, W):
+            pred = "dense array has shape %r, expected %r" % (out.shape, (len(arrays), H, W))
+        for k, a in enumerate(arrays):
+            if pred is not None:
+                break
+            got = _bits(out[k, :a.shape[0], :a.shape[1]])
+            if not np.array_equal(got, _bits(a)):
+                pred = ("array %d (dtype %s) is stored ROUNDED in the dense array of dtype %s (first array: %s): read back %r, handed over %r"
+                        % (k, a.dtype, out.dtype, arrays[0].dtype, got.tolist(), _bits(a).tolist()))
+                break
+            rest = np.ones((H, W), dtype=bool)
+            rest[:a.shape[0], :a.shape[1]] = False
+            cells = _bits(out[k])[rest]
+            if not (np.all(np.isnan(cells)) if desc["pad"] == "nan" else np.all(cells == 0.0)):
+                pred = "padding cells of array %d do not hold the pad value %r: %r" % (k, pad, cells.tolist())
+        if pred is None and out.dtype not in {a.dtype for a in arrays}:
+            pred = "dense dtype %s is none of the arrays' dtypes %r" % (out.dtype, [str(a.dtype) for a in arrays])
+        if pred is None:
+            rev = impl_call(G.pad_ragged_arrays_to_dense_array, arrays[::-1], pad_value=pad)
+            if isinstance(rev, ImplError) or rev.dtype != out.dtype:
+                pred = "dense dtype depends on the order of the arrays: %s for dtypes %r, %s for the reversed list" % (
+                    out.dtype, codes, rev if isinstance(rev, ImplError) else rev.dtype)
+    return dict(wire=[5, 0, list(codes)], impl=impl, pred=pred, features=feats, cmp=cmp_result())
 
 
 def run(desc):
@@ -627,6 +714,8 @@ def run(desc):
     kind = desc["kind"]
     if kind == "scorer-overlap":
         return _run_overlap(desc)
+    if kind == "pad-dtype":
+        return _run_pad_dtype(desc)
     T, plates, D, df = desc["T"], desc["plates"], desc["D"], desc["df"]
     seed, mc = desc["seed"], desc["max_combos"]
     ncomb = math.comb(T, 3)
@@ -835,8 +924,16 @@ def shrink(desc):
 
 def signature(desc, res):
     pred = res.get("pred") or ""
-    if desc.get("kind") == "dtype" and pred.startswith(DTYPE_FINDING + ":"):
-        return "dtype:first-plate-float32-lowers-precision-of-other-plates"
+    if desc.get("kind") in ("dtype", "pad-dtype"):
+        # one report per cause (not per plate number / score); none of these classes is a listed known finding: they are VIOLATIONs
+        for mark, name in (("depends on another plate's dtype", "float64-plate-moves-with-a-neighbours-dtype"),
+                           ("handed over as float32 among", "float32-plate-not-scored-on-its-own-values"),
+                           ("is stored ROUNDED", "array-stored-rounded"),
+                           ("depends on the order of the arrays", "dense-dtype-depends-on-order"),
+                           ("none of the arrays' dtypes", "dense-dtype-is-no-array-dtype"),
+                           ("padding cells", "padding-cells-wrong")):
+            if mark in pred:
+                return "%s:%s" % (desc["kind"], name)
     return "%s:%s" % (desc.get("kind"), (pred or res.get("disagree") or "")[:40])
 
 
